@@ -1,0 +1,29 @@
+/* Verification hooks (off unless built with -DCARES_VERIF).
+ *
+ * Every hook is a NULL function pointer; when NULL the library behaves exactly
+ * as without the guard.  SPDX-License-Identifier: MIT
+ */
+#ifndef __ARES_VERIF_H
+#define __ARES_VERIF_H
+
+#ifdef CARES_VERIF
+
+#  ifdef __cplusplus
+extern "C" {
+#  endif
+
+/* H1: virtual clock.  When set, ares_tvnow() returns what the callback
+ * writes (sec, usec). */
+extern void (*ares_verif_now_cb)(long long *sec, unsigned int *usec);
+
+/* H2: random source.  When set, every fetch of fresh random bytes is served
+ * by the callback. */
+extern void (*ares_verif_rand_cb)(unsigned char *buf, size_t len);
+
+#  ifdef __cplusplus
+}
+#  endif
+
+#endif /* CARES_VERIF */
+
+#endif
